@@ -1,11 +1,11 @@
 --------------------------- MODULE TestamentGen ---------------------------
 (* E1 + E2 for C41.  BASE records: every field outside BaseVary holds token 0, the fields in BaseVary range over their
-   whole domain.  From every base record TLC derives ALL single-field perturbations (every field, every other token),
-   the alias pairs (two perturbations with the same attested data: parent lists that are the same set) and the
-   storage-variant cases (the same record stored in two ways).  Every base record is one initial state on which TLC
-   checks that a perturbation changes exactly the perturbed field's attested value (or nothing: two tokens of `parents`
-   that denote the same set), that both records are valid trees, and that the specification's own texts satisfy the
-   laws.  The case table is exported for the replay. *)
+   whole domain.  From every base record TLC derives ALL single-field perturbation pairs (every field, every two
+   different tokens of its domain, the other fields as in the base record) and the storage-variant cases (the same record
+   stored in two ways).  Every base record is one initial state on which TLC checks that the two records of a pair differ
+   in exactly the perturbed field's attested value (or in nothing: two tokens of `parents` that denote the same set),
+   that both records are valid trees, and that the specification's own texts satisfy the laws.  The case table is
+   exported for the replay. *)
 EXTENDS Testament, Json, IOUtils, SequencesExt
 CONSTANTS BaseVary, Variants
 RECURSIVE RecsOver(_)
@@ -14,32 +14,32 @@ RecsOver(flds) ==
     ELSE LET fld == CHOOSE x \in flds : TRUE
          IN {(fld :> v) @@ r : v \in (IF fld \in BaseVary THEN Tokens(fld) ELSE {0}), r \in RecsOver(flds \ {fld})}
 Bases == RecsOver(Fields)
-Perturbed(b) == UNION {{[rec |-> [b EXCEPT ![fld] = v], fld |-> fld] : v \in Tokens(fld) \ {b[fld]}} : fld \in Fields}
-\* each unordered pair once: a perturbation that is itself a base record is generated from the smaller token only
-PairsOf(b) == {[a |-> b, b |-> p.rec, fld |-> p.fld, va |-> "2a", vb |-> "2a"] :
-                  p \in {q \in Perturbed(b) : q.rec \notin Bases \/ b[q.fld] < q.rec[q.fld]}}
-\* pairs of DIFFERENT token records with the SAME attested data among a base record's perturbations (parent order)
-AliasesOf(b) == UNION {{[a |-> p.rec, b |-> q.rec, fld |-> p.fld, va |-> "2a", vb |-> "2a"] :
-                           q \in {x \in Perturbed(b) : x.fld = p.fld /\ x.rec[x.fld] > p.rec[p.fld] /\ Diff(x.rec, p.rec) = {}}} :
-                       p \in Perturbed(b)}
-VariantsOf(b) == {[a |-> b, b |-> b, fld |-> "", va |-> "2a", vb |-> v] : v \in Variants \ {"2a"}}
+With(b, fld, v) == [b EXCEPT ![fld] = v]
+\* ALL pairs of records that agree with base record b outside one field and hold two different tokens there
+PairsOf(b) == UNION {{[a |-> With(b, fld, u), b |-> With(b, fld, v), fld |-> fld, va |-> "2a", vb |-> "2a"] :
+                         <<u, v>> \in {x \in Tokens(fld) \X Tokens(fld) : x[1] < x[2]}} : fld \in Fields}
+\* the same record stored in two different ways
+\* (the base record, and the base record without parents / as a merge: the root datum of StrictTestament3 depends on it)
+VariantsOf(b) == {[a |-> r, b |-> r, fld |-> "", va |-> x[1], vb |-> x[2]] :
+                     r \in {b, With(b, "parents", 1), With(b, "parents", 3)},
+                     x \in {y \in Variants \X Variants : y[1] # y[2] /\ (y[1] = "2a" \/ (y[2] # "2a" /\ y[1] = "pack-0.92"))}}
 VARIABLE c
 Init == c \in Bases
 Next == UNCHANGED c
 LawsHoldOnSpec ==
     /\ Valid(c)
-    /\ \A p \in PairsOf(c) : /\ Valid(p.b) /\ Diff(p.a, p.b) \subseteq {p.fld}
+    /\ \A p \in PairsOf(c) : /\ Valid(p.a) /\ Valid(p.b) /\ p.a # p.b /\ Diff(p.a, p.b) \subseteq {p.fld}
                              /\ (Diff(p.a, p.b) = {} => p.fld = "parents")
                              /\ Failed(p, SpecOut(p)) = {}
-    /\ \A p \in AliasesOf(c) : Valid(p.a) /\ Valid(p.b) /\ p.a # p.b /\ Diff(p.a, p.b) = {} /\ Failed(p, SpecOut(p)) = {}
     /\ \A p \in VariantsOf(c) : Diff(p.a, p.b) = {} /\ Failed(p, SpecOut(p)) = {}
-    /\ \A fld \in Fields : \E p \in Perturbed(c) : p.fld = fld                 \* every field is perturbed
+    /\ \A fld \in Fields : \E p \in PairsOf(c) : p.fld = fld /\ Diff(p.a, p.b) = {fld}       \* every field is perturbed
 \* anti-vacuity witnesses
-WitnessAlias == AliasesOf(c) = {}
+WitnessAlias == ~ \E p \in PairsOf(c) : Diff(p.a, p.b) = {}
 WitnessExec == ~ \E p \in PairsOf(c) : Diff(p.a, p.b) \subseteq ExecFields /\ Diff(p.a, p.b) # {}
+WitnessRoot == ~ \E p \in VariantsOf(c) : RootRev(p.a, p.va) # RootRev(p.b, p.vb)
 WitnessBackslash == ~ \E p \in PairsOf(c) : p.fld = "g.path" /\ PathOf(p.a, "g.path") = "d/g" /\ PathOf(p.b, "g.path") = "d\\g"
 Export == JsonSerialize(IOEnv.VF_OUT, [dom |-> DomSize, paths |-> PathNames, parents |-> ParentLists,
-                                       pairs |-> SetToSeq(UNION {PairsOf(b) \cup AliasesOf(b) : b \in Bases}),
+                                       pairs |-> SetToSeq(UNION {PairsOf(b) : b \in Bases}),
                                        variants |-> SetToSeq(UNION {VariantsOf(b) : b \in Bases})])
 ASSUME IF "VF_OUT" \in DOMAIN IOEnv THEN Export ELSE TRUE
 =============================================================================
